@@ -319,8 +319,8 @@ def call_and_oracle(system, params, form, ref):
         f = sys.modules['athlib.bulgarian_score'].score
         timed = ev in ['60', '100', '200', '600', '800', '60H', '100H']
         term, src = bulgarian_oracle(ref['bulgarian'][ag + g + ev], timed)
-        src = src.replace('REF', "__import__('json').load(open(%r))['bulgarian']['__dict__'][[i for i, kv in enumerate(__import__('json').load(open(%r))['bulgarian']['__dict__']) if kv[0] == %r][0]][1]['__dict__']" % (
-            os.path.join(core.VERIF, 'reference', 'tables.json'), os.path.join(core.VERIF, 'reference', 'tables.json'), ag + g + ev))
+        src = src.replace('REF', "dict((kk, vv) for kk, vv in [x for x in __import__('json').load(open(%r))['bulgarian']['__dict__'] if x[0] == %r][0][1]['__dict__'])" % (
+            os.path.join(core.VERIF, 'reference', 'tables.json'), ag + g + ev))
         return (lambda p: f(ag, g, ev, p)), 'athlib.bulgarian_score(%r, %r, %r, perf)' % (ag, g, ev), term, src
     raise ValueError(system)
 
